@@ -2,16 +2,16 @@
 import json
 import os
 
-HOOK_COMMITS = []
+HOOK_COMMITS = ["b71293f", "23e6bda", "0c7fa88"]
 
 CHECKS = {
     "C01": dict(
-        technique="TLA+ contract (FlowContract!C01) checked by TLC on traces recorded from the real flow_graph; L2 models PFlood/BasinGraph model-checked against the same contract",
+        technique="TLA+ contract (FlowContract!C01) checked by TLC on traces recorded from the real flow_graph; L2 models PFlood (priority flood, all queue tie-breaks) and BasinGraph (spanning-tree resolver, all tie orders and pass choices) model-checked against the same contract",
         text="Every recorded update_routes of every resolver variant is validated by TLC against the L1 contract: terminals are self receivers, every receiver edge of a node connected to a base level strictly descends in returned elevation (exact on ulp-ranks), and following receivers reaches a base level. Seeded random worlds (profile, rook/queen/bishop rasters with looped borders, meshes; ties, plateaus, zero/negative/subnormal/huge levels, masks, interior base levels) plus small exhaustive scopes.",
         note="Trusted: the harness logs projections only (ulp-ranks are a monotone re-encoding of the bit patterns); TLC evaluates the contract; neighbourhoods come from the Grid specification, itself bound to the real grids by C07. Bounded by world size (<= 8x8) and the sampled worlds.",
         ref="5-C01"),
     "C02": dict(
-        technique="TLA+ contract (FlowContract!C02, spill level as a least fixpoint evaluated by TLC) on recorded traces; PFlood L2 model refines it exhaustively on small rasters",
+        technique="TLA+ contract (FlowContract!C02, spill level as a least fixpoint evaluated by TLC) on recorded traces; PFlood and BasinGraph L2 models refine it exhaustively on small grids",
         text="For every recorded update of every resolver variant TLC recomputes the spill level (min over neighbour paths of the max input elevation) as a least fixpoint on ulp-ranks and checks in <= out, bit-identity at base levels / masked nodes, and Spill <= out <= Spill + N ulps exactly (gap-compressed ranks keep small ulp distances exact).",
         note="Trusted: rank encoding (order and ulp gaps < 1000 exact), Grid specification for neighbourhoods. Bounded by world size and samples.",
         ref="5-C02"),
@@ -21,7 +21,7 @@ CHECKS = {
         note="Trusted: integer/dyadic encodings (exact by construction of the generated inputs); cases outside the exact domain are only checked for overload agreement and memo consistency. Rounding-size deviations on non-dyadic weights are invisible.",
         ref="5-C03"),
     "C04": dict(
-        technique="TLA+ steepest-descent contract (FlowContract!C04) with exact integer slope comparison, TLC on recorded traces",
+        technique="TLA+ steepest-descent contract (FlowContract!C04) with exact integer slope comparison, TLC on recorded traces; Router L2 model refines it on every field of a small anisotropic raster",
         text="Every recorded single-router state: terminals are self receivers, a node is its own receiver exactly when no unmasked neighbour entry of the Grid specification is strictly lower, otherwise nrec = 1, weight bit-equal 1, stored distance equal to the grid distance of that entry, and drop_r^2 * dsq_j >= drop_j^2 * dsq_r for every lower neighbour j (exact integers: fields m*2^k, integer anisotropic spacings, wrap-around neighbours, integer-coordinate meshes).",
         note="Maximality asserted only for fields given as integers times 2^k with k >= -900 (exact and floating orders provably agree there); existence asserted everywhere including subnormal scale and epsilon-filled terrain.",
         ref="5-C04"),
@@ -31,7 +31,7 @@ CHECKS = {
         note="Proportionality is an enclosure check (Q(16) with slack), asserted only on integer inputs at ordinary scale and for p in {0,1,2}; finiteness/sum/receiver set asserted everywhere (p = 1.5, 30; subnormal and 2^1000 scale).",
         ref="5-C05"),
     "C06": dict(
-        technique="TLA+ discrete invariants (FlowContract!C06Donors/C06Dfs/C06Bfs) evaluated by TLC on every recorded graph state",
+        technique="TLA+ discrete invariants (FlowContract!C06Donors/C06Dfs/C06Bfs) evaluated by TLC on every recorded graph state; Orders L2 model (the three traversal algorithms, step by step) checked against them on every forest / DAG with 4-5 nodes",
         text="Every recorded state of every operator sequence (single/multi, pflood, mst basic/carve, repeated updates, masks, looped borders, meshes): donor table is the inverse of the receiver table as bags over distinct nodes, counts within table widths and indices in range, dfs order is a permutation with every receiver before its donors, bfs order is a permutation cut into non-empty strictly increasing levels with every receiver in a strictly earlier level.",
         note="Pure discrete check, exact. Bounded by the sampled worlds (<= 8x8).",
         ref="5-C06"),
@@ -56,7 +56,7 @@ CHECKS = {
         note="The C++ memory model is represented by release/acquire version ghosts (no stale reads of relaxed atomics, no out-of-thin-air); under the controlled scheduler executions are sequentially consistent, so the data-race clause on the real code is observed by ThreadSanitizer on free-running executions of the same programs (trusted observer). Spurious condition-variable wake-ups are outside the model and make a run inconclusive. Pool sizes <= 4.",
         ref="5-C11"),
     "C12": dict(
-        technique="TLA+ erosion contract (FlowContract!Spl*) on ulp-ranks, validated by TLC on recorded spl_eroder steps over every kind of routed graph, with eroder objects reused while the graph changes",
+        technique="TLA+ erosion contract (FlowContract!Spl*) on ulp-ranks, validated by TLC on recorded spl_eroder steps over every kind of routed graph, with eroder objects reused while the graph changes; SPLSweep L2 model (bottom-up sweep with the solver abstracted to any outcome) refines the contract on every small DAG",
         text="Every recorded erode() call (single/multi graphs, resolved or not, masks, moved base levels, K scalar/array incl. 0, m in {0,0.4,0.5,1}, n in {0.5,0.8,1,1.5,2,3}, dt over 9 decades, elevation = returned or input field; one eroder object serving several steps while nodes become terminal / masked / lakes): constructor refuses exactly n != 1 on a multiple-direction graph; erosion finite; bit-zero at terminals, masked nodes and lakes (h <= lowest post-erosion receiver elevation, the comparison the property states, on ranks); new elevation not above the old one beyond two ulps; an eroded node is not lowered below its lowest receiver (up to two ulps of its own magnitude, the rounding of the returned erosion).",
         note="Products K dt A^m are kept finite (< 1e150: beyond that the Newton loop of the library does not terminate, recorded in DESIGN.md as outside the documented domain).",
         ref="5-C12"),
